@@ -99,6 +99,9 @@ class World:
         self.lost = None            # op index at which the ghost's id prediction was refuted
         self.epoch = 0              # number of CONSUME ops so far (forwards are pushed only there)
         self.rewound_groups = {}    # group -> op index of the first cursor rewind (known finding)
+        self.idle_points = []       # op indices at which the router was idle (CONSUME -> NONE 0)
+        self.last_some = -1
+        self.cur_op = 0
         self.known = []             # (op index, prop, finding id, text)
 
     def viol(self, i, prop, text):
@@ -109,6 +112,7 @@ class World:
         if l.ended is not None:
             return
         l.ended, l.end_kind = i, kind
+        l.ended_n = len(self.accepted)
         if l.pid is not None and self.owner.get(l.pid) is l:
             del self.owner[l.pid]
             self.free_ids.append(l.pid)
@@ -132,8 +136,13 @@ class World:
         l.final_batch_from = l.final_batch_from if l.final_batch_from is not None else len(l.expected_acks)
 
     def accept(self, i, l, topic, payload, retain, qos):
+        if topic == b"":
+            # an empty topic name (invalid MQTT, accepted by the router) cannot be told apart from
+            # "topic replaced by its alias" on the subscriber side: not tracked
+            self.skips["empty-topic-publish"] += 1
+            return
         n = len(self.accepted)
-        self.accepted.append((n, topic, payload, retain, l.k if l else None, qos, i))
+        self.accepted.append((n, topic, payload, retain, l.k if l else None, qos, self.cur_op))
         if retain and payload == b"":
             self.retained.pop(topic, None)
             self.retained_hist[topic].append((n, None))
@@ -154,6 +163,7 @@ class World:
                 break
             if ans in ("DEAD", "EOF", "BADORACLE"):
                 break
+            self.cur_op = i
             getattr(self, "op_" + t[0], lambda *a: None)(i, t, ans)
         return self
 
@@ -206,11 +216,14 @@ class World:
                 l.expected_acks.append(("PUBREL", str(pk)))
         if will is not None:
             self.wills[name] = will
+        else:
+            self.wills.pop(name, None)      # a will-less Connect clears an older registration
 
     def op_PUSH(self, i, t, ans):
         k = int(t[1])
         if k < len(self.links) and ans == "OK":
             self.links[k].pending.append((i, t[2:]))
+            self.links[k].calm_drain = None
 
     def op_DATA(self, i, t, ans):
         l = self.owner.get(int(t[1]))
@@ -269,7 +282,7 @@ class World:
                 new = path not in l.subs
                 if new:
                     l.subs[path] = (int(q), len(self.accepted), True)
-                    l.new_subs = getattr(l, "new_subs", []) + [(path, int(q), len(self.accepted), pi)]
+                    l.new_subs = getattr(l, "new_subs", []) + [(path, int(q), len(self.accepted), self.cur_op)]
                 codes.append(q)
             l.expected_acks.append(("SUBACK", p[1], ",".join(codes) if codes else "-"))
             if bad:
@@ -347,6 +360,17 @@ class World:
 
     def op_CONSUME(self, i, t, ans):
         self.epoch += 1
+        if ans == "SOME":
+            self.last_some = i
+        if ans == "NONE 0":
+            self.idle_points.append(i)
+            # links that were drained, owed nothing and had an empty window at a DRAIN after which
+            # the router did nothing but find its queue empty: all their requests are parked, so
+            # every subscription in force has had its first sweep
+            for l in self.links:
+                d = getattr(l, "calm_drain", None)
+                if d is not None and self.last_some < d and l.ended is None:
+                    l.calm_points = getattr(l, "calm_points", []) + [i]
 
     def undecidable_ack(self, i, l):
         """an ack that does not match what the client has SEEN: unsolicited only if nothing can
@@ -390,7 +414,10 @@ class World:
                             l.alias_out = getattr(l, "alias_out", {})
                             l.alias_out[al] = f["topic"]
                 f.setdefault("topic_resolved", f["topic"])
-                l.fwd.append(f)
+                if f["topic_resolved"] in (None, b""):
+                    self.skips["empty-or-unresolved-topic-forward"] += 1   # not judged by the delivery clauses
+                else:
+                    l.fwd.append(f)
                 if f["qos"] > 0:
                     # ---- C09: window
                     if f["pkid"] == 0 or f["pkid"] > MAX_INFLIGHT:
@@ -407,6 +434,7 @@ class World:
                 l.got_disconnect = n[1]
         if len(l.unacked) == MAX_INFLIGHT:
             self.pause_reasons[k].add("inflight-full")
+        l.calm_drain = i if (not l.owe_ready and not l.unacked and not l.pending) else None
 
     def op_READY(self, i, t, ans):
         l = self.owner.get(int(t[1]))
@@ -482,10 +510,34 @@ def quiescent_end(w):
     return True
 
 
+def spinning_end(w):
+    """the history ends with the router consuming for ever without producing anything although
+    no client owes it anything: >= 2000 CONSUMEs answered SOME in the last 3000 ops, all of
+    which are CONSUME or DRAIN, every DRAIN empty"""
+    ops, ans = w.ops, w.answers
+    if w.panic_at is not None or len(ans) < len(ops) or len(ops) < 3000:
+        return False
+    some = 0
+    for o, a in zip(ops[-3000:], ans[-3000:]):
+        if o == "CONSUME":
+            some += a == "SOME"
+        elif o.startswith("DRAIN"):
+            if a != "[]":
+                return False
+        else:
+            return False
+    return some >= 2000
+
+
 def check_end(w):
     """clauses that need the whole history"""
     q = quiescent_end(w)
     w.quiescent = q
+    if spinning_end(w):
+        shared = any(strip_share(p_)[0] is not None for l in w.links for (p_, _q, _s, _a) in getattr(l, "new_subs", []))
+        w.viol(len(w.ops) - 1, "C17" if shared else "C01",
+               "the router never goes idle: it keeps consuming ready connections without forwarding anything although every client has drained, acknowledged and sent its Readys%s" % (
+                   " (a shared subscription request is skipped for ever: the group's turn rests on a member that cannot take it)" if shared else ""))
     ended_by_deferred = set()
     for l in w.links:
         if not l.registered:
@@ -554,7 +606,7 @@ def check_delivery(w, q):
         # ---- nothing unmatched (C01 safety), for every link whatever its history
         for f in live:
             tp = f["topic_resolved"]
-            if tp is None:
+            if tp is None or tp == b"":
                 w.skips["alias-unresolved"] += 1
                 continue
             if f["payload"] == b"":
@@ -582,6 +634,16 @@ def check_delivery(w, q):
             ok = any(strip_share(p)[0] is None and topic_matches(tp, p) for p in spans)
             if not ok:
                 w.viol(f["at"], "C15", "link %d got a retained replay on %r without a matching non-shared subscription" % (l.k, tp))
+            # the replay belongs to a subscription's FIRST sweep: a message accepted after the router
+            # went idle with that subscription in force (and the window never full) cannot be replayed
+            # (only QoS0 subscriptions: a QoS>0 request's first sweep is postponed while the window is
+            # full, which the ghost cannot see for forwards that were pushed but not yet drained)
+            if True:
+                acc_ops = [a[6] for a in w.accepted if a[1] == tp and a[2] == f["payload"] and a[3]]
+                cands = [(p_, at_) for (p_, _q, _s, at_) in getattr(l, "new_subs", []) if strip_share(p_)[0] is None and topic_matches(tp, p_)]
+                qos0_only = all(_q == 0 for (p_, _q, _s, at_) in getattr(l, "new_subs", []) if strip_share(p_)[0] is None and topic_matches(tp, p_))
+                if acc_ops and cands and qos0_only and not l.resumed and all(any(at_ < i0 < min(acc_ops) for i0 in getattr(l, "calm_points", [])) for (_p, at_) in cands):
+                    w.viol(f["at"], "C15", "link %d got %r on %r flagged retained although it was accepted after the router had gone idle with the subscription already in force (replay after the first sweep)" % (l.k, f["payload"], tp))
         for f in live:
             if f["retain"]:
                 w.viol(f["at"], "C15", "live forward flagged retained: link %d %r" % (l.k, f["payload"]))
@@ -669,7 +731,7 @@ def check_delivery(w, q):
         # when did each subscription of the session take effect (acceptance counter)
         since = {}
         for x in chain:
-            for (p, q, s_, _pi) in getattr(x, "new_subs", []):
+            for (p, _qq, s_, _pi) in getattr(x, "new_subs", []):
                 since.setdefault(p, s_)
             for (p, _a) in getattr(x, "unsubbed", []):
                 since.pop(p, None)
@@ -757,6 +819,56 @@ def check_delivery(w, q):
                     w.viol(mlinks[0].at, "C17", "group %r (%d members, none ever left): idle broker never forwarded %r to any member (%d missing of %d)" % (
                         g, len(mlinks), missing[0], len(missing), len(exp)))
                 w.stats["c17_groups_complete_checked"] += 1
+        # ---- completeness for any group that kept at least one member from some moment T to the end
+        if q and len(paths_g) == 1:
+            path_g = next(iter(paths_g))
+            flt = members[0][2]
+            ambiguous = False
+            iv = []
+            for l in mlinks:
+                if l.notes or l.resumed or not l.clean:
+                    ambiguous = True
+                other = [p_ for (p_, _q, _s, _a) in getattr(l, "new_subs", []) if p_ != path_g]
+                if any(topic_matches(b"x", b"x") and True for _ in ()) :
+                    pass
+                if any(strip_share(p_)[1] is not None and (strip_share(p_)[1] == flt or True) and p_ != path_g and
+                       any(topic_matches(a[1], strip_share(p_)[1]) and topic_matches(a[1], flt) for a in w.accepted) for p_ in other):
+                    ambiguous = True      # the member also receives the group's topics through another subscription
+                for (p_, _q, since, _a) in getattr(l, "new_subs", []):
+                    if p_ != path_g:
+                        continue
+                    until = None
+                    for (pu, at) in getattr(l, "unsubbed", []):
+                        if pu == path_g and at >= since:
+                            until = at
+                            break
+                    if until is None and l.ended is not None:
+                        until = getattr(l, "ended_n", 0)
+                    iv.append((since, until))
+            if not ambiguous and iv and g not in w.rewound_groups:
+                end_n = len(w.accepted)
+                # T = earliest start of a chain of intervals covering [T, end]
+                open_iv = [x for x in iv if x[1] is None]
+                if open_iv:
+                    T = min(x[0] for x in open_iv)
+                    changed = True
+                    while changed:
+                        changed = False
+                        for (a_, b_) in iv:
+                            if b_ is not None and a_ < T <= b_:
+                                T = a_
+                                changed = True
+                    within = w.log_bytes[flt] < w.cfg["segcount"] * w.cfg["segsize"]
+                    if within:
+                        exp = [(tp, pl) for (n, tp, pl, _r, _p, _q, _i) in w.accepted if n >= T and pl != b"" and topic_matches(tp, flt)]
+                        union = set()
+                        for l in mlinks:
+                            union.update((f["topic_resolved"], f["payload"]) for f in l.fwd)
+                        missing = [x for x in exp if x not in union]
+                        if missing:
+                            w.viol(mlinks[0].at, "C17", "group %r always had a member since acceptance #%d, broker idle and everything acknowledged, but %r was never forwarded to any member (%d missing of %d)" % (
+                                g, T, missing[0], len(missing), len(exp)))
+                        w.stats["c17_groups_cover_checked"] += 1
         # links that hold ONLY shared subscriptions on this group's filters: their forwards are group forwards
         pure = [l for (l, path, flt) in members
                 if all(strip_share(p)[0] is not None for p in set(x[0] for x in getattr(l, "new_subs", []))) and l.clean and not l.resumed]
